@@ -40,6 +40,11 @@ CHECKS = {
    technique="TLA+ model of the public API as a system (SchemaApi.tla) enumerated by TLC into call histories replayed on the real library; pool refinement (Pools.tla) model-checked; pool events recorded through verif hooks validated by TLC (PoolsTrace)",
    text="SchemaApi.tla enumerates every history of object creation, AddType and Check/Example/GetAST/Len/UsedUserTypes/OpenAPI calls over 2-3 objects and an 8-text catalogue (valid shallow/nested/deeper, scanner/loader/checker failures, type reference). Each history is replayed sequentially in a worker process: every result is compared with the fresh-object reference, every result still held is re-read after every later call. Pools.tla (buffer pool with ReturnCopy) satisfies HeldStable/NoLiveAlias, its ReturnAlias variant is the negative control. A stride sample of histories also records pool Get/Put/return events (with buffer identity and result-memory aliasing) through the hooks; TLC validates them against PoolsTrace.",
    note="Contents limited to the catalogue; one object is the type of at most one root. When a project has two independent defects only error-vs-value is compared (which defect wins is C09)."),
+ "C11": dict(
+   category="model_checking", design_ref="DESIGN.md §3 C11",
+   technique="TLA+ model of goroutines at hook granularity (Concurrent.tla) model-checked over all interleavings; its work assignments run free in a -race build; hook traces with goroutine ids validated by TLC (PoolsTrace)",
+   text="Concurrent.tla splits every public call at the sync.Once guard and the buffer pool (the verif hook points); TLC checks NoBufferSharedByTwoProcesses, NothingHeldOutsideCalls, ResultsAreSequential and OnceRunsOnce over all interleavings of 2 goroutines x programs of <= 2 calls (2.4M + 7.8M states). Every initial state (4800 work assignments: own objects / one shared checked object) is executed for several rounds in a race-instrumented build with GOMAXPROCS 2/4/16: no race report, results equal to sequential references, held results intact; sampled runs record hook events with goroutine ids and TLC validates them against PoolsTrace (a buffer is never handed to two goroutines, results never alias pooled memory).",
+   note="The race detector judges only the schedules that ran (free-running; gates are not imposed). Catalogue of three contents. Go race detector and sync.Pool are trusted."),
 }
 
 REASON_PENDING = "check not built yet in this round (design in DESIGN.md §3); no claim is made"
